@@ -1,0 +1,82 @@
+//go:build verif
+
+// Contracts for the operation layer's treatment of the caches (operations.go): every operation keeps the
+// attribute cache and the directory cache well-formed caches with separate LRU lists, so that the handlers can
+// rely on GetAttr / Lookup / ReadDir contracts after any operation (C14, C26, C02, C04). Comment-only file.
+package absnfs
+
+//@ also AbsfsNFS.CreateWithContext
+//@ requires acInv(s.attrCache) && dirCacheApart(s)
+//@ ensures [caches-inv] {C14, C02} acInv(s.attrCache) && s.attrCache == old(s.attrCache) && dirCacheApart(s) && s.dirCache == old(s.dirCache)
+
+//@ also AbsfsNFS.Create
+//@ requires acInv(s.attrCache) && dirCacheApart(s)
+//@ ensures [caches-inv] {C14, C02} acInv(s.attrCache) && s.attrCache == old(s.attrCache) && dirCacheApart(s) && s.dirCache == old(s.dirCache)
+
+//@ also AbsfsNFS.RemoveWithContext
+//@ requires acInv(s.attrCache) && dirCacheApart(s)
+//@ ensures [caches-inv] {C14, C02} acInv(s.attrCache) && s.attrCache == old(s.attrCache) && dirCacheApart(s) && s.dirCache == old(s.dirCache)
+
+//@ also AbsfsNFS.Remove
+//@ requires acInv(s.attrCache) && dirCacheApart(s)
+//@ ensures [caches-inv] {C14, C02} acInv(s.attrCache) && s.attrCache == old(s.attrCache) && dirCacheApart(s) && s.dirCache == old(s.dirCache)
+
+//@ also AbsfsNFS.RenameWithContext
+//@ requires acInv(s.attrCache) && dirCacheApart(s)
+//@ ensures [caches-inv] {C14, C02} acInv(s.attrCache) && s.attrCache == old(s.attrCache) && dirCacheApart(s) && s.dirCache == old(s.dirCache)
+
+//@ also AbsfsNFS.Rename
+//@ requires acInv(s.attrCache) && dirCacheApart(s)
+//@ ensures [caches-inv] {C14, C02} acInv(s.attrCache) && s.attrCache == old(s.attrCache) && dirCacheApart(s) && s.dirCache == old(s.dirCache)
+
+//@ also AbsfsNFS.Symlink
+//@ requires acInv(s.attrCache) && dirCacheApart(s)
+//@ ensures [caches-inv] {C14, C02} acInv(s.attrCache) && s.attrCache == old(s.attrCache) && dirCacheApart(s) && s.dirCache == old(s.dirCache)
+
+//@ also AbsfsNFS.SetAttr
+//@ requires acInv(s.attrCache) && dirCacheApart(s)
+//@ ensures [caches-inv] {C14, C02} acInv(s.attrCache) && s.attrCache == old(s.attrCache) && dirCacheApart(s) && s.dirCache == old(s.dirCache)
+
+//@ also AbsfsNFS.ReadWithContext
+//@ requires acInv(s.attrCache) && dirCacheApart(s)
+//@ ensures [caches-inv] {C14, C02} acInv(s.attrCache) && s.attrCache == old(s.attrCache) && dirCacheApart(s) && s.dirCache == old(s.dirCache)
+
+//@ also AbsfsNFS.Read
+//@ requires acInv(s.attrCache) && dirCacheApart(s)
+//@ ensures [caches-inv] {C14, C02} acInv(s.attrCache) && s.attrCache == old(s.attrCache) && dirCacheApart(s) && s.dirCache == old(s.dirCache)
+
+//@ also AbsfsNFS.Readlink
+//@ requires acInv(s.attrCache) && dirCacheApart(s)
+//@ ensures [caches-inv] {C14, C02} acInv(s.attrCache) && s.attrCache == old(s.attrCache) && dirCacheApart(s) && s.dirCache == old(s.dirCache)
+
+//@ also AbsfsNFS.LookupWithContext
+// (a lookup or attribute read works on the attribute cache only: the directory cache stays as it is)
+//@ ensures [dircache-kept] {C14, C02, C26} old(dirCacheApart(s)) ==> dirCacheApart(s) && s.dirCache == old(s.dirCache)
+
+//@ also AbsfsNFS.Lookup
+// (a lookup or attribute read works on the attribute cache only: the directory cache stays as it is)
+//@ ensures [dircache-kept] {C14, C02, C26} old(dirCacheApart(s)) ==> dirCacheApart(s) && s.dirCache == old(s.dirCache)
+
+//@ also AbsfsNFS.GetAttr
+// (a lookup or attribute read works on the attribute cache only: the directory cache stays as it is)
+//@ ensures [dircache-kept] {C14, C02, C26} old(dirCacheApart(s)) ==> dirCacheApart(s) && s.dirCache == old(s.dirCache)
+
+//@ also AbsfsNFS.CreateWithContext
+//@ ensures [node-with-attrs] {C14, C04} isnil(result1) ==> result0 != nil && result0.attrs != nil
+
+//@ also AbsfsNFS.Create
+//@ ensures [node-with-attrs] {C14, C04} isnil(result1) ==> result0 != nil && result0.attrs != nil
+
+//@ also AbsfsNFS.Symlink
+//@ ensures [node-with-attrs] {C14, C04} isnil(result1) ==> result0 != nil && result0.attrs != nil
+
+//@ also AbsfsNFS.ReadWithContext
+// C01/C14: a READ returns at most the bytes asked for, and at most one transfer size
+//@ ensures [at-most-count] {C14, C01} isnil(result1) ==> old(count) >= 0 && len(result0) <= old(count) && len(result0) <= max(old(curTuning(s).TransferSize), 0)
+
+//@ also AbsfsNFS.Read
+// C01/C14: a READ returns at most the bytes asked for, and at most one transfer size
+//@ ensures [at-most-count] {C14, C01} isnil(result1) ==> old(count) >= 0 && len(result0) <= old(count) && len(result0) <= max(old(curTuning(s).TransferSize), 0)
+
+//@ also AbsfsNFS.Readlink
+//@ ensures [target-length] {C14} isnil(result1) ==> len(result0) <= 4294967295
